@@ -253,3 +253,127 @@ def r_vecabsorb(repo, tier):
             if not ok or val not in alts:
                 out.report(f.file, f.dqual, "undefined branch of %s" % norm(t.ast.test), t.ast.lineno, "the undefined branch does not return the undefined alternative itself")
     return out
+
+
+_MUT_METHODS = {"append", "extend", "insert", "update", "pop", "clear", "remove", "add", "setdefault", "popitem", "sort", "reverse", "setmemory", "delayed", "update_delayed", "restruct", "safe_update", "__setitem__", "write", "cut"}
+
+
+def r_mappure(repo, tier):
+    out = RuleOut(
+        "R-MAPPURE",
+        "the map operations that return a new map (mapper.eval, rcompose, use, usemmap, assume, <<, >> -- the methods all of whose "
+        "returns are fresh maps -- and merge()) never modify a map they receive: no attribute/item store, augmented assignment or "
+        "mutating method call whose receiver is rooted at a parameter (self included) or at a local that only aliases one",
+    )
+    fresh, info, _ = fresh_mapper_methods(repo)
+    m = repo.mod(MAPPER)
+    c = m.classes["mapper"]
+    funcs = [c.methods[n] for n in sorted(fresh)] + [repo.func(MAPPER, "merge")]
+    nsites = 0
+    for f in funcs:
+        params = set(f.params())
+        # locals that only alias a parameter: x = p  (single assignment from a bare parameter name)
+        alias = {}
+        for n in _walk_no_nested(f.node):
+            if isinstance(n, ast.Assign) and len(n.targets) == 1 and isinstance(n.targets[0], ast.Name) and isinstance(n.value, ast.Name) and n.value.id in params:
+                alias[n.targets[0].id] = n.value.id
+        # a parameter re-bound to a fresh value is no longer the caller's object: only flow-insensitive names that are
+        # never re-bound count as 'the parameter'
+        rebound = {n.id for n in _walk_no_nested(f.node) if isinstance(n, ast.Name) and isinstance(n.ctx, ast.Store)}
+
+        def root(e):
+            d = 0
+            while isinstance(e, (ast.Attribute, ast.Subscript)):
+                e = e.value
+                d += 1
+            if isinstance(e, ast.Name):
+                nm = alias.get(e.id, e.id)
+                if nm in params and nm not in rebound:
+                    return nm, d
+            return None, d
+
+        for n in _walk_no_nested(f.node):
+            hits = []
+            if isinstance(n, (ast.Assign, ast.AugAssign)):
+                for t in n.targets if isinstance(n, ast.Assign) else [n.target]:
+                    for e in t.elts if isinstance(t, (ast.Tuple, ast.List)) else [t]:
+                        r, d = root(e)
+                        if r and d >= 1:
+                            hits.append((r, norm(n)))
+            elif isinstance(n, ast.Call) and isinstance(n.func, ast.Attribute) and n.func.attr in _MUT_METHODS:
+                r, d = root(n.func.value)
+                if r:
+                    hits.append((r, norm(n)))
+            elif isinstance(n, ast.Delete):
+                for t in n.targets:
+                    r, d = root(t)
+                    if r and d >= 1:
+                        hits.append((r, norm(n)))
+            for r, txt in hits:
+                nsites += 1
+                out.report(f.file, f.dqual, "%s mutated: %s" % (r, txt[:70]), n.lineno, "%s returns a new map but `%s` modifies the map it received as %s: the caller's map changes as a side effect of deriving another one" % (f.dqual, txt[:80], r))
+        out.inst(f.key, {"function": f.dqual, "parameters": sorted(params), "aliases": alias})
+    out.stats["functions"] = len(funcs)
+    if len(funcs) < 6:
+        raise AnalysisError("R-MAPPURE: only %d functions" % len(funcs))
+    return out
+
+
+MEMORY = "amoco/system/memory.py"
+
+
+def _fresh_copy_expr(v):
+    if isinstance(v, ast.Call):
+        if isinstance(v.func, ast.Attribute) and v.func.attr in ("copy", "__copy__", "__deepcopy__"):
+            return True
+        if isinstance(v.func, ast.Name) and v.func.id not in ("iter", "next", "getattr", "id"):
+            return True  # constructor / conversion building a new object
+        return False
+    if isinstance(v, ast.IfExp):
+        return _fresh_copy_expr(v.body) and _fresh_copy_expr(v.orelse)
+    if isinstance(v, ast.Constant):
+        return True
+    return False
+
+
+def r_deepcopy(repo, tier):
+    out = RuleOut(
+        "R-DEEPCOPY",
+        "copy() of the mutable memory containers (MemoryMap, MemoryZone) hands every element of the source to the new container "
+        "through a call that builds a new object (x.copy() / a constructor) on every path -- a shared zone or memory object would be "
+        "written in place through either map (mapper.eval/use/assume rely on mmap.copy() to own their memory)",
+    )
+    m = repo.mod(MEMORY)
+    n = 0
+    for cname in ("MemoryMap", "MemoryZone"):
+        c = m.classes.get(cname)
+        if c is None or "copy" not in c.methods:
+            raise AnalysisError("anchor vanished: %s.copy" % cname)
+        f = c.methods["copy"]
+        for x in _walk_no_nested(f.node):
+            cands = []  # (element variable names, value expression, node)
+            if isinstance(x, ast.For) and "self" in {k.id for k in ast.walk(x.iter) if isinstance(k, ast.Name)}:
+                tn = {k.id for k in ast.walk(x.target) if isinstance(k, ast.Name)}
+                for s in ast.walk(x):
+                    if isinstance(s, ast.Assign) and isinstance(s.targets[0], (ast.Subscript, ast.Attribute)):
+                        cands.append((tn, s.value, s))
+                    elif isinstance(s, ast.Expr) and isinstance(s.value, ast.Call) and isinstance(s.value.func, ast.Attribute) and s.value.func.attr in ("append", "insert", "add", "addtomap", "extend") and s.value.args:
+                        cands.append((tn, s.value.args[-1], s))
+            if isinstance(x, (ast.ListComp, ast.GeneratorExp, ast.SetComp)) and "self" in {k.id for g in x.generators for k in ast.walk(g.iter) if isinstance(k, ast.Name)}:
+                tn = {k.id for g in x.generators for k in ast.walk(g.target) if isinstance(k, ast.Name)}
+                cands.append((tn, x.elt, x))
+            if isinstance(x, ast.DictComp) and "self" in {k.id for g in x.generators for k in ast.walk(g.iter) if isinstance(k, ast.Name)}:
+                tn = {k.id for g in x.generators for k in ast.walk(g.target) if isinstance(k, ast.Name)}
+                cands.append((tn, x.value, x))
+            for tn, v, node in cands:
+                if not ({k.id for k in ast.walk(v) if isinstance(k, ast.Name)} & tn):
+                    continue
+                n += 1
+                ok = _fresh_copy_expr(v)
+                out.inst("%s::%s" % (f.key, norm(v)), {"method": f.dqual, "element_value": norm(v), "new_object_on_every_path": ok})
+                if not ok:
+                    out.report(MEMORY, f.dqual, "element %s" % norm(v), node.lineno, "%s puts `%s` into the copy: on some path this is the source's own element, so the copy and the original share a mutable zone/object" % (f.dqual, norm(v)))
+    out.stats["elements"] = n
+    if n < 2:
+        raise AnalysisError("R-DEEPCOPY: element transfers of MemoryMap.copy / MemoryZone.copy not found")
+    return out
